@@ -52,17 +52,18 @@ func run(e *harness.Env) {
 // ---- running one program against tabula and judging it ---------------------------------------
 
 type verdict struct {
-	sig     string
-	explain func() (string, map[string][]byte) // built only for failures that are recorded
-	outcome     string
-	nontrivial  bool
-	compared    int
-	sized       int
+	sig        string
+	explain    func() (string, map[string][]byte) // built only for failures that are recorded
+	outcome    string
+	nontrivial bool
+	compared   int
+	sized      int
+	maxQ       int // deepest graphics-state stack reached (q and the implicit save of Do)
 }
 
-// sharedFonts: the seq space registers the two (standard, metrics-only) fonts once instead of letting
-// every fresh extractor auto-register them at the first Tf (building the width table is 90% of the cost
-// of a case and has no bearing on positions). The other spaces use the plain auto-registering path.
+// sharedFonts: the seq and form spaces register the two (standard, metrics-only) fonts once instead of
+// letting every fresh extractor auto-register them at the first Tf (building the width table is 90% of the
+// cost of a case and has no bearing on positions). The long space uses the plain auto-registering path.
 var sharedFonts map[string]*font.Font
 
 func runText(p *program) ([]text.TextFragment, error) {
@@ -113,6 +114,7 @@ func judge(p *program) verdict {
 	}
 	legacy := simulate(p, variant{postCm: true, postTd: true})
 	var v verdict
+	v.maxQ = ref.maxQ
 	sens := false
 	for i, w := range ref.out {
 		if w.comparePos {
@@ -383,8 +385,8 @@ func seqSpace(e *harness.Env) {
 		}
 		v := judge(p)
 		programs++
-		if int64(depth) > maxDepth {
-			maxDepth = int64(depth)
+		if int64(v.maxQ) > maxDepth {
+			maxDepth = int64(v.maxQ)
 		}
 		if v.sig == "" {
 			if desc == "" {
@@ -513,7 +515,7 @@ func longSpace(e *harness.Env) {
 		}
 		v := judge(p)
 		e.Max("long_program_operators", int64(len(p.ops)))
-		e.Max("long_max_q_depth", 9)
+		e.Max("long_max_q_depth", int64(v.maxQ))
 		if v.sig != "" {
 			det, files := v.explain()
 			c.Fail(v.sig, det, files)
@@ -581,7 +583,7 @@ func formSpace(e *harness.Env) {
 }
 
 func buildFormProgram(outer []op, fm namedMat, xind, mind bool, body string, wrap bool, post string) *program {
-	p := &program{}
+	p := &program{shareFonts: true}
 	f := &form{name: "Fm0", indirect: xind, matrixIndr: mind}
 	if fm.name != "none" {
 		m := matOp("cm", fm)
